@@ -12,6 +12,8 @@ import (
 	"github.com/go-ldap/ldap/v3"
 	"github.com/hashicorp/go-hclog"
 	"github.com/jimlambrt/gldap/testdirectory"
+
+	"verifharness/lab"
 )
 
 // labT is the TestingT handed to testdirectory: it records instead of failing.
@@ -71,7 +73,36 @@ func startDirOnce(mode string, opts ...testdirectory.Option) (h *dirHandle, err 
 		all = append(all, testdirectory.WithMTLS(t))
 	}
 	all = append(all, opts...)
-	d := testdirectory.Start(t, all...)
+	// The directory would pick its port with listen(:0)-and-close and listen on it again later; when another
+	// process is handed the same ephemeral port in between, Run fails and Start spins forever waiting for Ready
+	// (the repository's own suite hangs that way now and then). The port therefore comes from this process's
+	// private range below the ephemeral ports, and Start is abandoned after 30 s should it still never return.
+	if port, perr := lab.FreeLocalPort(); perr == nil {
+		all = append(all, testdirectory.WithPort(t, port))
+	}
+	type started struct {
+		d   *testdirectory.Directory
+		pan interface{}
+	}
+	ch := make(chan started, 1)
+	go func() {
+		defer func() {
+			if r := recover(); r != nil {
+				ch <- started{nil, r}
+			}
+		}()
+		ch <- started{testdirectory.Start(t, all...), nil}
+	}()
+	var d *testdirectory.Directory
+	select {
+	case r := <-ch:
+		if r.pan != nil {
+			return nil, fmt.Errorf("testdirectory.Start failed: %v", r.pan)
+		}
+		d = r.d
+	case <-time.After(30 * time.Second):
+		return nil, fmt.Errorf("%w: testdirectory.Start did not return within 30 s (its Run failed to listen and it waits for Ready forever)", lab.ErrHarness)
+	}
 	h = &dirHandle{D: d, T: t, Mode: mode}
 	h.Pool = x509.NewCertPool()
 	h.Pool.AppendCertsFromPEM([]byte(d.Cert()))
